@@ -346,6 +346,8 @@ class CallMixin:
             for lbl, e in ct.lets.items():
                 ctx.ghost[lbl] = self.eval_spec_text(e)
             for lbl, e in ct.ensures.items():
+                if lbl.startswith("bounded:") or lbl.startswith("exc:"):
+                    continue            # only what is proved of the callee may be assumed at call sites
                 ctx.assume(ctx.zbool(ctx.truth(self.eval_spec_text(e))))
             for g, e in ct.ghost.get("sets", {}).items():
                 saved_ghost[g] = self.eval_spec_text(e)      # ghost effect of the callee on the caller's ghost state
